@@ -84,7 +84,8 @@ def loadOne : RM RObj :=
   RM.bind nextLine fun lc =>
   RM.bind (liftE (cellLine lc)) fun _ =>
   RM.pure { atcoords := some [natoms.toNat, 3], atffparams := [natoms.toNat, natoms.toNat, natoms.toNat],
-            extraAtom := [natoms.toNat], cellvecs := some [3, 3] }
+            extraAtom := [natoms.toNat], cellvecs := some [3, 3],
+            hasTitle := true, hasAtffparams := true, hasExtra := true }
 
 def read (ls : List Str) : Out RObj := run loadOne ls
 
